@@ -146,7 +146,7 @@ def main():
             "guard": "--cfg callbag_verif",
             "enable": "RUSTFLAGS='--cfg callbag_verif' cargo build --offline (harness variant 'hooked', lib/build.sh harness hooked)",
             "baseline_off_cmd": "cd /repo && cargo nextest run --workspace --no-fail-fast --tool-config-file pb:/w/lib/nextest.toml --profile pb --test-threads 8 --offline || cargo test --workspace --no-fail-fast --offline",
-            "source_commits": ["c402756", "b6ef510", "ce68e41", "b7e9997"],
+            "source_commits": ["c402756", "b6ef510", "ce68e41", "b7e9997", "aafdbff"],
             "add_only": True,
         },
         "engines": [{
